@@ -2163,7 +2163,9 @@ impl Element for XmlElement {
                     .iter()
                     .any(|v| equal_qname(v.borrow().qname(), attr.qname()))
             {
-                items.push(XmlAttribute::new_from_declaration(attr, self.context()));
+                let item = XmlAttribute::new_from_declaration(attr, self.context());
+                item.borrow_mut().set_parent_id(Some(self.id()));
+                items.push(item);
             }
         }
 
